@@ -309,6 +309,7 @@ theorem HS_step (op : Op) (h : HS none c) : HS none (step c op) := by
   | setSched l d => exact h
   | tick ms => exact h
   | setSmCallback => exact h
+  | setSendOnConnect on => exact h
   | setFlags f => exact HS_setFlags h
   | usend it => exact HS_xmppSend h
   | uraw it => exact HS_xmppSendRaw h
